@@ -443,6 +443,30 @@ Judge24(o) ==
   ELSE IF o.second /\ b.cres # (o.c.tickets /\ o.s.tickets) THEN "resumption"
   ELSE "ok"
 
+(* B level (model drift, never a violation): the handshake message types each side consumes in a
+   completed honest handshake are the flights of the machine TLSHandshakeMC (message type numbers:
+   1 ClientHello, 2 ServerHello/HRR, 4 NewSessionTicket, 8 EncryptedExtensions, 11 Certificate,
+   12 ServerKeyExchange, 13 CertificateRequest, 14 ServerHelloDone, 15 CertificateVerify,
+   16 ClientKeyExchange, 20 Finished).  Optional: NewSessionTicket, a HelloRetryRequest round,
+   any number of TLS 1.3 post-handshake tickets. *)
+OptT(c, t) == IF c THEN <<t>> ELSE <<>>
+RECURSIVE StripTickets(_)
+StripTickets(s) == IF s # <<>> /\ s[Len(s)] = 4 THEN StripTickets(SubSeq(s, 1, Len(s) - 1)) ELSE s
+ClientReadShapes(v, suite, resumed) ==
+  IF v = 13 THEN { OptT(hrr, 2) \o <<2, 8>> \o (IF resumed THEN <<>> ELSE <<11, 15>>) \o <<20>> : hrr \in BOOLEAN }
+  ELSE IF resumed THEN { <<2>> \o OptT(nst, 4) \o <<20>> : nst \in BOOLEAN }
+  ELSE { <<2, 11>> \o OptT(Tbl(suite).kx # "RSA", 12) \o <<14>> \o OptT(nst, 4) \o <<20>> : nst \in BOOLEAN }
+ServerReadShapes(v, resumed) ==
+  IF v = 13 THEN { <<1>> \o OptT(hrr, 1) \o <<20>> : hrr \in BOOLEAN }
+  ELSE IF resumed THEN { <<1, 20>> } ELSE { <<1, 16, 20>> }
+Drift24(o) ==
+  LET b == o.obs IN
+  IF o.down # 0 \/ ~(b.cdone /\ b.sdone) \/ ~Known(b.csuite) THEN "ok"
+  ELSE IF (IF b.cvers = 13 THEN StripTickets(b.ctypes) ELSE b.ctypes) \notin ClientReadShapes(b.cvers, b.csuite, b.cres)
+       THEN "client-message-sequence"
+  ELSE IF b.stypes \notin ServerReadShapes(b.svers, b.sres) THEN "server-message-sequence"
+  ELSE "ok"
+
 \* abstract facts about a judged record, for the replay signature (known-findings matcher)
 Facts24(o) ==
   LET n == Negotiate(o.c, o.s, o.down) IN
